@@ -379,3 +379,81 @@ def extract_of(t, lang):
         if len(ex) == 4 and ex[0] == "_" and ex[1] == "extract" and str(ex[2]).lstrip("-").isdigit() and str(ex[3]).lstrip("-").isdigit():
             return int(ex[2]), int(ex[3]), t.args[1]
     return None
+
+
+# ---------------------------------------------------------------------------------------------------------------------
+# the C translator: the text it emits for an operator, with symbolic operand texts
+
+CT = "miasm/ir/translators/C.py"
+
+
+def _module_consts(repo, rel, extra=None):
+    """module-level constants of a translator module evaluated with TOK_* known (dict / list / str / int literals only)"""
+    from .dispatch import tok_consts
+    m = repo.mod(rel)
+    env = dict(tok_consts(repo))
+    env.update(extra or {})
+    it = Interp(functions={}, methods={}, consts=env)
+    out = dict(env)
+    for st in m.tree.body:
+        if isinstance(st, ast.Assign) and len(st.targets) == 1 and isinstance(st.targets[0], ast.Name):
+            try:
+                out[st.targets[0].id] = it.ev(st.value, dict(out))
+                it.consts = out
+            except Exception:
+                continue
+    return out
+
+
+class _CInterp(_LeafInterp):
+    text_mode = True
+
+    def translate_leaf(self, x):
+        if isinstance(x, FakeExpr) and x.kind == "op" and x.op.startswith(("signExt_", "zeroExt_")):
+            inner = self.translate_leaf(x.args[0])
+            return Term("sext" if x.op.startswith("sign") else "zext", x.size, inner)
+        if isinstance(x, FakeExpr) and x.kind == "id":
+            return Term("leaf", x.name, x.size)
+        return _LeafInterp.translate_leaf(self, x)
+
+
+def c_term(repo, op, nargs, size, arg_sizes=None):
+    m = repo.mod(CT)
+    cls = "TranslatorC"
+    meths = dict((q.split(".", 1)[1], f) for q, f in m.funcs.items() if q.startswith(cls + ".") and q.count(".") == 1)
+    meths["from_expr"] = _leaf_from_expr()
+    funcs = dict((q, f) for q, f in m.funcs.items() if "." not in q)
+    um = repo.mod("miasm/core/utils.py")
+    if "size2mask" in um.funcs:
+        funcs["size2mask"] = um.funcs["size2mask"]
+    xm = repo.mod("miasm/expression/expression.py")
+    if "is_associative" in xm.funcs:
+        funcs["is_associative"] = xm.funcs["is_associative"]
+    consts = _module_consts(repo, CT)
+    if "size2mask" not in funcs:
+        v = um.assigns.get("size2mask")
+        if isinstance(v, ast.Lambda):
+            consts["size2mask"] = ("__lambda__", v, {})
+    it = _CInterp(functions=funcs, methods=meths, consts=consts)
+    selfobj = {"__self__": True, "loc_db": None}
+    selfobj.update(_class_consts(m, cls))
+    sizes = arg_sizes or [size] * nargs
+    leaves = [FakeExpr("id", s, name="abcd"[i]) for i, s in enumerate(sizes)]
+    expr = FakeExpr("op", size, op=op, args=leaves)
+    return it.call_function(meths["from_ExprOp"], [expr], self_obj=selfobj)
+
+
+def ctext_flat(t):
+    """(text with §k§ placeholders, [terms]) of a ctext term / plain string"""
+    if isinstance(t, str):
+        return t, []
+    if not (isinstance(t, Term) and t.head == "ctext"):
+        return "§0§", [t]
+    out, terms = "", []
+    for p in t.args:
+        if isinstance(p, str):
+            out += p
+        else:
+            out += "§%d§" % len(terms)
+            terms.append(p)
+    return out, terms
